@@ -65,7 +65,13 @@ fn render(elems: &[KP], rng: &mut Rng, spacing: bool) -> String {
                 }
                 s.push_str(&v.to_string());
             }
-            KP::Quoted(n) => s.push_str(&refpath::quote(n)),
+            KP::Quoted(n) => {
+                if spacing && rng.bool() {
+                    s.push_str(&refpath::quote_esc(n, rng))
+                } else {
+                    s.push_str(&refpath::quote(n))
+                }
+            }
             KP::Name(n) => s.push_str(n),
         }
         sp(&mut s, rng, spacing);
